@@ -152,14 +152,20 @@ class MultipartDecoder:
             % (LINE_BREAK, re.escape(boundary), LINE_BREAK, LINE_BREAK),
             re.MULTILINE,
         )
+        # A boundary that is still incomplete when the buffer ends: the line
+        # break and the boundary text are there, followed by nothing but
+        # trailing whitespace or the first dash of the epilogue boundary.
+        self.pending_boundary_re = re.compile(
+            rb"%s--%s(?:-|[^\S\n\r]*)\Z" % (LINE_BREAK, re.escape(boundary))
+        )
 
-    def last_newline(self) -> int:
+    def last_newline(self, start: int = 0) -> int:
         try:
-            last_nl = self.buffer.rindex(b"\n")
+            last_nl = self.buffer.rindex(b"\n", start)
         except ValueError:
             last_nl = len(self.buffer)
         try:
-            last_cr = self.buffer.rindex(b"\r")
+            last_cr = self.buffer.rindex(b"\r", start)
         except ValueError:
             last_cr = len(self.buffer)
 
@@ -208,8 +214,12 @@ class MultipartDecoder:
                 # No complete boundary in the buffer, but there may be
                 # a partial boundary at the end. As the boundary
                 # starts with either a nl or cr find the earliest and
-                # return up to that as data.
-                data_length = del_index = self.last_newline()
+                # return up to that as data. A partial boundary is shorter
+                # than CR LF "--" boundary, so only the tail can hold one and
+                # everything before it is data: the buffer stays bounded.
+                data_length = del_index = self.last_newline(
+                    max(0, len(self.buffer) - len(self.boundary) - 3)
+                )
                 more_data = True
             else:
                 match = self.boundary_re.search(self.buffer)
@@ -221,7 +231,17 @@ class MultipartDecoder:
                     data_length = match.start()
                     del_index = match.end()
                 else:
-                    data_length = del_index = self.last_newline()
+                    # The boundary text is in the buffer, but not as a
+                    # complete boundary. It can only become one if it
+                    # reaches the end of the buffer; anywhere else it is
+                    # data, and the tail is treated as above.
+                    pending = self.pending_boundary_re.search(self.buffer)
+                    if pending is not None:
+                        data_length = del_index = pending.start()
+                    else:
+                        data_length = del_index = self.last_newline(
+                            max(0, len(self.buffer) - len(self.boundary) - 3)
+                        )
                 more_data = match is None
 
             data = bytes(self.buffer[:data_length])
